@@ -219,6 +219,19 @@ def invalid_case(fam, port, variant, seed, part, wide):
                     if sid == "grid_export_limit":
                         await probe("set_grid_export_limit(50) after its read was refused", "setting_refused_on_read_then_written",
                                     lambda: inv.set_grid_export_limit(50), True)
+        # ids that a fresh object of this class lists but THIS object's settings() does not (any more): unknown ids here
+        if fam == "ET":
+            sim.regs[35184] = 0
+            try:
+                await inv.read_runtime_data()
+            except g.InverterError:
+                pass
+            base_ids = {s.id_ for s in models.family_cls(g, fam)("other", port, 0, 1, 0).settings()}
+            gone = sorted(base_ids - {s.id_ for s in inv.settings()})
+            for sid in gone[:12]:
+                await probe(f"write_setting({sid!r}, 1) - an id settings() no longer lists", "ids_no_longer_listed", lambda: inv.write_setting(sid, 1), True)
+            part.count("ids_no_longer_listed", 0)
+            sim.regs[35184] = 1
         # ids of runtime sensors are not setting ids
         known = {s.id_ for s in inv.settings()}
         sens = sorted({s.id_ for s in inv.sensors()} - known - ({"time"} if fam == "ES" else set()))
